@@ -350,6 +350,14 @@ def run(ctx, rec):
         # salts that differ only by trailing NUL characters (or by nothing but NULs): different salts all the same
         fixed_vary += [{"ws": ["1", "2", "1", "3"], "salts": list(p), "field": "uid", "base": 3, "kind": "str", "cond": False}
                        for p in (("wave-7", "wave-7\x00"), ("", "\x00"), ("a\x00", "a\x00\x00"), ("k", "k" + "\x00" * 64), ("\x00", "\x00\x00"))]
+        # long descriptive salts that differ only in their tail (a trailing _v1 / _v2 after 31 ... 5000 equal characters), or only in
+        # their first character, or only in the middle
+        for n in (31, 32, 55, 56, 63, 64, 65, 119, 127, 128, 255, 256, 1023, 4096, 5000):
+            stem = ("growth_checkout_price_anchor_returning_customers_eu_west_2026_q3_" * 80)[:n]
+            fixed_vary += [{"ws": ["1", "2", "1", "3"], "salts": [stem + a, stem + b], "field": "uid", "base": 5, "kind": "str", "cond": n % 2 == 0}
+                           for a, b in (("_v1", "_v2"), ("1", "2"))]
+            fixed_vary.append({"ws": ["1", "1", "1", "1"], "salts": ["A" + stem, "B" + stem], "field": "uid", "base": 5, "kind": "int", "cond": False})
+            fixed_vary.append({"ws": ["1", "1", "1", "1"], "salts": [stem + "x" + stem, stem + "y" + stem], "field": "uid", "base": 5, "kind": "padded", "cond": False})
         runner.direct_run(ctx, rec, "varies-fixed", fixed_vary, judge_vary)
         if rec.violations:
             return
